@@ -125,11 +125,49 @@ def rounding_fallback(chk):
     return run
 
 
+def add_delay_fallback(chk):
+    """Bounded native companion of the two @add-delay region contracts: the extracted statements run natively."""
+    cache = {}
+
+    def run():
+        if "r" in cache:
+            return cache["r"]
+        import types
+        from pyvc import native
+        from contracts import c09 as K
+        fails, n = [], 0
+        for c in K.CONTRACTS[1:]:
+            try:
+                f = native.region_function(c)
+            except LookupError:
+                continue        # statements restructured: undecided for this stand-in, the run() families decide
+            disc = "discretised" in c["name"]
+            lists = ([[1], [1, 1, 1], [2], [1, 2], [3, 1], [1, 1, 5], [0, 1], [2, 2]] if disc
+                     else [[0.0], [0.05], [0.1], [0.1000001], [0.3, 0.05], [0.05, 0.2, 0.01], [1.0], [2.5, 0.0]])
+            for means in lists:
+                for step in (0.1, 0.01, 1.0):
+                    n += 1
+                    status, fl = native.check_call(c, K.CLASSES, dict(self=types.SimpleNamespace(step_size=step, step_size_adaptation=not disc), means=means), fn=f)
+                    if status == "violated":
+                        fails.append(dict(site="C09/" + c["name"], clauses=fl[:2], input=dict(means=means, step_size=step), features=dict(means=means, step=step)))
+        chk.add_bounded("native-add-delay-decision", n, n,
+                        "the extracted statements of _collect_delays_from_edges that decide whether a delay buffer is built, run natively on lists of "
+                        "discretised delays (incl. the placeholder 1, exactly 2, mixtures) and of continuous delays around the step size; distinct = (list, step)",
+                        [dict(means=[1, 2], step_size=0.1)])
+        cache["r"] = fails
+        return fails
+    return run
+
+
 def main():
     chk = Check("C09", "other")
     fb = rounding_fallback(chk)
-    chk.run_contracts("contracts.c09", fallback={"*": fb})
-    for f in fb():
+    fba = add_delay_fallback(chk)
+    from contracts import c09 as _K
+    fbs = {c_["name"]: fba for c_ in _K.CONTRACTS[1:]}
+    fbs["*"] = fb
+    chk.run_contracts("contracts.c09", fallback=fbs)
+    for f in fb() + fba():
         chk.report_failure(f)
     _cases = families(chk.tier, chk.seed)
     _results = driver.run_family(
